@@ -469,7 +469,7 @@ def _butter_sos(stream):
 
 
 LABEL_KINDS = ("none", "good", "outside", "bad", "mixed")
-LABEL_KINDS_MORE = ("false", "outside_mid", "outside_head", "mixed_mid")
+LABEL_KINDS_MORE = ("false", "outside_mid", "outside_head", "mixed_mid", "bad_clusters")
 
 
 def _labels_for(sc, rng):
@@ -491,6 +491,12 @@ def _labels_for(sc, rng):
             lab[NC - int(rng.integers(1, 30)):] = 3
     if kind == "outside_head":
         lab[: int(rng.integers(8, 120))] = 3
+    if kind == "bad_clusters":
+        # runs of one to three adjacent dead / noisy channels, also at both ends of the probe (the repair of one must not lean
+        # on another bad one)
+        for c0 in [0, NC - int(rng.integers(1, 4))] + [int(v) for v in rng.choice(np.arange(8, NC - 8, 8), int(rng.integers(2, 9)), replace=False)]:
+            n = int(rng.integers(1, 4))
+            lab[c0: c0 + n] = rng.choice([1, 2], size=len(lab[c0: c0 + n]))
     if kind in ("bad", "mixed", "mixed_mid"):
         cand = np.arange(2, NC - 2, 3)          # isolated: every bad channel keeps good neighbours
         bad = rng.choice(cand, rng.integers(2, 14), replace=False)
@@ -736,7 +742,7 @@ def _key(prop, t):
     if head == "EqualsAlone":
         return f"groups:{t['fn']}-equals-alone"
     k = KEYS.get(head, "destripe:" + head.lower())
-    if head in ("Removed", "Kept") and t.get("scenario", {}).get("labels") in ("bad", "mixed", "mixed_mid"):
+    if head in ("Removed", "Kept") and t.get("scenario", {}).get("labels") in ("bad", "mixed", "mixed_mid", "bad_clusters"):
         k += ":repaired-channels"
     return k
 
@@ -799,7 +805,8 @@ def run_model(ctx):
     jobs = [("mc/DestripeFlow_quick.cfg", {"OUT_FILE": str(out)}), ("mc/DestripeTree_quick.cfg", {}), ("mc/DestripeTree_orig.cfg", {})]
     if not ctx.quick:
         jobs[1] = ("mc/DestripeTree_thorough.cfg", {})
-    with ThreadPoolExecutor(3) as ex:
+        jobs.append(("mc/DestripeTree_groups4.cfg", {}))        # four group names on six channels
+    with ThreadPoolExecutor(len(jobs)) as ex:
         res = list(ex.map(lambda j: tlc.run("mc/MC_Destripe.tla", j[0], workers=2, timeout=1800, env=j[1], coverage=not ctx.quick), jobs))
     for (cfg, _), r in zip(jobs, res):
         ctx.tlc(r, cfg)
@@ -872,7 +879,7 @@ def plan(ctx, cases):
         if spatial == "average":
             v = "car"
         lab = (("false", "good", "none")[(q // 5) % 3] if spatial == "groups"
-               else ("mixed_mid", "bad", "outside_mid", "mixed", "outside_head", "false", "mixed_mid")[(q + q // 5) % 7])
+               else ("mixed_mid", "bad", "outside_mid", "mixed", "outside_head", "false", "bad_clusters")[(q + q // 5) % 7])
         sc = {"gen": g, "variant": v, "stream": st, "labels": lab, "seed": rng.randint(0, 2 ** 31 - 1), "by_version": rng.random() < 0.3,
               "ns": (4097, 3001, 2500, 4096, 3500)[q % 5 if not ctx.quick else k % 4], "dtype": "f4" if q % 3 == 0 else "f8",
               "layout": lays[(q // 3) % 4], "lab_dtype": ldts[(q // 2) % 4], "spatial": spatial, "spikes_first": bool(q % 2),
@@ -952,7 +959,7 @@ def run(ctx):
         for t in [t for t in recs if t["kind"] == kind][:2]:
             ctx.sample({k: v for k, v in t.items() if k not in ("shift", "collection")})
     selftest(ctx, recs, {v["index"] for v in verdicts if v["prop"]})
-    ctx.cov["rule"] = ("model: all label vectors over {0,1,2,3}^6, all groupings of 6 channels onto <= 3 groups x settings sets, "
+    ctx.cov["rule"] = ("model: all label vectors over {0,1,2,3}^6, all groupings of 6 channels onto <= 3 groups (thorough: 7 onto <= 3, 6 onto <= 4) x settings sets, "
                        "the three wiring tables; experiments: (function, settings, grouping) call trees, (generation, variant, "
                        "stream, label class, seed) pipelines, (block label vector, perturbed block) data-flow probes, AGC lengths; "
                        "each also with other record lengths / element types / memory layouts / label and group-vector spellings / "
